@@ -21,7 +21,9 @@ pub fn simple_names() -> Vec<Vec<u8>> {
 
 /// builds a scene: two trees, an outside area reachable only through links, link roots, a missing root
 pub fn build_scene(ctx: &Ctx, rng: &mut Rng, names: Vec<Vec<u8>>, links: bool) -> Scene {
-    let dir = ctx.scratch("scene");
+    // two padding levels keep links to ".." / "../.." inside an area nothing else writes to
+    let dir = ctx.scratch("scene").join("pad").join("w");
+    std::fs::create_dir_all(&dir).unwrap();
     let out_dir = dir.join("outside");
     std::fs::create_dir(&out_dir).unwrap();
     let p_out = GenParams { max_depth: 2, max_width: 3, links: false, names: names.clone() };
@@ -204,6 +206,119 @@ pub fn run_c03(ctx: &Ctx, sink: &mut Sink) {
             if toks.iter().any(|t| t == "sorted") { tags.push("sorted"); }
             if imp.contains("503a") { tags.push("prune-fired"); }
             sink.push(Case { req, imp, tags });
+        }
+        let _ = std::fs::remove_dir_all(&sc.dir);
+    }
+}
+
+/// C18 — starting points as operands (the model scans the leading words itself) and through -files0-from
+pub fn run_c18(ctx: &Ctx, sink: &mut Sink) {
+    use crate::frun::{find_binary, find_inproc};
+    use crate::fexpr::argv_of;
+    use super::frun_common::show;
+    let mut rng = Rng::new(ctx.seed).fork(18);
+    let scenes = if ctx.thorough { 800 } else { 60 };
+    for si in 0..scenes {
+        let sc = build_scene(ctx, &mut rng, simple_names(), si % 3 != 0);
+        // two more candidates that cannot be given as operands
+        std::fs::create_dir(sc.dir.join("-dash")).unwrap();
+        std::fs::write(sc.dir.join("-dash/x"), b"x").unwrap();
+        std::fs::create_dir(sc.dir.join("nl\nname")).unwrap();
+        std::fs::write(sc.dir.join("nl\nname/y"), b"y").unwrap();
+        std::fs::create_dir(sc.dir.join(" sp")).unwrap();
+        // observe again: links to ".." see the directories just created
+        let mut map: Vec<(Vec<u8>, String)> = sc.roots.iter().map(|(nm, _)| (nm.clone(), observe_root(nm, &sc.dir.join(std::ffi::OsStr::new(std::str::from_utf8(nm).unwrap()))))).collect();
+        for extra in ["-dash", "nl\nname", " sp", ".", "r0/../r1", "-"] {
+            map.push((extra.as_bytes().to_vec(), observe_root(extra.as_bytes(), &sc.dir.join(extra))));
+        }
+        let wm: Vec<String> = map.iter().map(|(_, w)| w.clone()).collect();
+        let wm = wm.join(";");
+        let operand_ok = |n: &[u8]| n == b"-" || (!n.starts_with(b"-") && n != b"!" && n != b"(");
+        for ci in 0..(if ctx.thorough { 16 } else { 10 }) {
+            let mut toks: Vec<String> = vec![];
+            if rng.chance(1, 3) {
+                toks.push(format!("maxdepth:{}", rng.below(3)));
+            }
+            if rng.chance(1, 4) {
+                toks.push("depth".into());
+            }
+            if rng.chance(1, 2) {
+                toks.push("sorted".into());
+            }
+            toks.push((*rng.pick(&["print0", "print"])).into());
+            let expr = argv_of(&toks, &mut rng);
+            if ci % 2 == 0 {
+                // operands
+                let mut words: Vec<String> = vec![];
+                for _ in 0..rng.below(3) {
+                    words.push((*rng.pick(&["-H", "-L", "-P", "-O2"])).into());
+                }
+                if rng.chance(1, 8) {
+                    words.push("--".into());
+                }
+                let n = if rng.chance(1, 6) { 0 } else { rng.range(1, 4) };
+                for _ in 0..n {
+                    let (nm, _) = &map[rng.below(map.len())];
+                    if operand_ok(nm) {
+                        words.push(String::from_utf8(nm.clone()).unwrap());
+                    }
+                }
+                // order below a -H link root under -depth is C03's known finding, not this property
+                let (toks, expr) = if words.iter().any(|w| w == "-H") {
+                    let t: Vec<String> = toks.iter().filter(|t| *t != "depth").cloned().collect();
+                    let e = argv_of(&t, &mut rng);
+                    (t, e)
+                } else {
+                    (toks.clone(), expr.clone())
+                };
+                let mut args = words.clone();
+                args.extend(expr.clone());
+                let o = if ci == 4 { find_binary(&ctx.bin("find"), &args, Some(&sc.dir)) } else { find_inproc(&ctx.tmp.join("stderr-find"), &args, std::time::SystemTime::now(), Some(&sc.dir)) };
+                let wl: Vec<String> = words.iter().map(|w| hex(w.as_bytes())).collect();
+                let req = format!("findv {} {} {}", if wl.is_empty() { ".".to_string() } else { wl.join(",") }, wm, toks.join(","));
+                let mut tags = vec!["operands", "nt"];
+                if n == 0 { tags.push("default-dot"); }
+                if n > 1 { tags.push("multi-root"); }
+                sink.push(Case { req, imp: show(&o), tags });
+            } else {
+                // -files0-from
+                let n = rng.range(0, 4);
+                let mut content: Vec<u8> = vec![];
+                let mut tags = vec!["files0", "nt"];
+                for i in 0..n {
+                    if rng.chance(1, 8) {
+                        content.push(0); // an empty name
+                        tags.push("empty-name");
+                    }
+                    let (nm, _) = &map[rng.below(map.len())];
+                    content.extend_from_slice(nm);
+                    if nm.starts_with(b"-") || nm.contains(&b'\n') { tags.push("non-operand-name"); }
+                    if i + 1 < n || rng.chance(2, 3) {
+                        content.push(0);
+                    } else {
+                        tags.push("no-final-nul");
+                    }
+                }
+                let f = ctx.tmp.join("names0");
+                std::fs::write(&f, &content).unwrap();
+                let flag = *rng.pick(&["P", "H", "L"]);
+                let (toks, expr) = if flag == "H" {
+                    let t: Vec<String> = toks.iter().filter(|t| *t != "depth").cloned().collect();
+                    let e = argv_of(&t, &mut rng);
+                    (t, e)
+                } else {
+                    (toks.clone(), expr.clone())
+                };
+                let mut args: Vec<String> = vec![];
+                if flag != "P" { args.push(format!("-{flag}")); }
+                args.push("-files0-from".into());
+                args.push(f.to_str().unwrap().into());
+                args.extend(expr.clone());
+                let o = find_inproc(&ctx.tmp.join("stderr-find"), &args, std::time::SystemTime::now(), Some(&sc.dir));
+                let req = format!("find0 {flag} {} {} {}", hex(&content), wm, toks.join(","));
+                sink.push(Case { req, imp: show(&o), tags });
+                let _ = std::fs::remove_file(&f);
+            }
         }
         let _ = std::fs::remove_dir_all(&sc.dir);
     }
